@@ -1,9 +1,12 @@
 """C10 drivers (run inside the engine child).
 
-construct_driver: a batch of pattern strings through four channels (microjs.regex.RegExp, regex literal, RegExp(), new RegExp()),
-  each script channel inside try/catch (does script code receive a SyntaxError?) and, on request, without (does Python receive a JSError?).
+construct_driver: a batch of pattern strings through six channels (microjs.regex.RegExp, regex literal, RegExp(), new RegExp(),
+  "s".match(P), "s".search(P) with a string P), each script channel inside try/catch (does script code receive a SyntaxError?)
+  and, on request, without (does Python receive a JSError?).  Compilation work is counted (AST nodes visited, instructions emitted).
 run_driver: one matching run of a catastrophic family with step / stack / poll counting through the guarded hook.
+fold_batch: case-insensitive matching of short subjects with special-casing characters through the API and six script operations.
 The drivers only record outcome codes and counts; spec/C10.tla judges."""
+import time
 from harness import wire
 from harness.drivers import CLASSIFY_JS
 
@@ -23,7 +26,7 @@ def code_of(out, caught):
 
 def script_channel(api, ctx, got, body, wall):
     del got[:]
-    _emits[0] = 0
+    _emits[0] = _visits[0] = 0
     out = api.eval_outcome(ctx, body, wall=wall, cap=20_000_000)
     if out["o"] == "value":
         if len(got) != 1:
@@ -34,13 +37,17 @@ def script_channel(api, ctx, got, body, wall):
 
 
 EMIT_CAP = 3_000_000
+VISIT_CAP = 6_000_000
 _emits = [0]
+_visits = [0]
+_counting = [False, False]          # [emit counter installed, node-visit counter installed]
 
 
 def install_emit_counter(api):
-    """Unbounded compilation is detected by counting, not by the clock: every instruction the regex compiler emits is
-    counted and the construction is stopped (outcome "hang") beyond EMIT_CAP.  If the internal name is gone the
-    wall-clock watchdog of api.run remains."""
+    """Unbounded compilation is detected by counting, not by the clock: every instruction the regex compiler emits and every
+    AST node it visits is counted and the construction is stopped (outcome "hang") beyond EMIT_CAP / VISIT_CAP (a counted
+    quantifier over a body that emits nothing spends its time visiting nodes).  If the internal names are gone the wall-clock
+    watchdog of api.run remains."""
     try:
         from microjs.regex.compiler import RegexCompiler
     except Exception:       # noqa: BLE001
@@ -57,8 +64,57 @@ def install_emit_counter(api):
             raise api.HarnessHang("emit cap")
         return orig(self, *a, **k)
     RegexCompiler._emit = counted
+    _counting[0] = True
+    orig_node = getattr(RegexCompiler, "_compile_node", None)
+    if orig_node is not None:
+        def visited(self, *a, **k):
+            _visits[0] += 1
+            if _visits[0] > VISIT_CAP:
+                raise api.HarnessHang("node-visit cap")
+            return orig_node(self, *a, **k)
+        RegexCompiler._compile_node = visited
+        _counting[1] = True
     RegexCompiler._verif_wrapped = True
     return True
+
+
+STRING_CHANNELS = [("'s'.match(P)", "match"), ("'s'.search(P)", "search")]
+CAUGHT = "try { %s; __out('ok'); } catch (e) { __out(__cls(e)); }"
+UNCAUGHT = "%s; __out('ok');"
+
+
+def tag_code(tag):
+    return "ok" if tag == "ok" else ("SyntaxError" if tag == "SyntaxError" else "caught:" + str(tag))
+
+
+CTOR_CAUGHT = ["try { var r = RegExp(P, F); __out('v', r); } catch (e) { __out(__cls(e)); }",
+               "try { var r = new RegExp(P, F); __out('v', r); } catch (e) { __out(__cls(e)); }"]
+# the statements of channels 3-6, unchanged, as the body of a function that is defined once per context
+BULK_FN = "function __bulk() { " + " ".join(CTOR_CAUGHT + [CAUGHT % e for e, _ in STRING_CHANNELS]) + " }"
+
+
+def bulk_channels(api, ctx, got, wall):
+    """Channels 3-6 (RegExp(P, F), new RegExp(P, F), 's'.match(P), 's'.search(P), each in its try/catch) in one evaluation
+    `__bulk()`: the script to parse is short, which makes the bulk of the string space (length >= 4) cost a third.  Returns None
+    unless the call ended with the four reports (a foreign exception or a stop ends the whole script): the caller then evaluates
+    every channel on its own as a top-level statement - the form used for all shorter strings, the flag strings and the specials."""
+    del got[:]
+    _emits[0] = _visits[0] = 0
+    out = api.eval_outcome(ctx, "__bulk()", wall=wall, cap=20_000_000)
+    if out["o"] == "value" and len(got) == 4:
+        return [tag_code(t) for t in got]
+    return None
+
+
+def string_channels(api, ctx, got, wall):
+    """'s'.match(P) and 's'.search(P) inside try/catch as top-level statements of one evaluation; whenever that does not end with
+    two reports each channel is evaluated on its own."""
+    del got[:]
+    _emits[0] = _visits[0] = 0
+    out = api.eval_outcome(ctx, " ".join(CAUGHT % e for e, _ in STRING_CHANNELS), wall=wall, cap=20_000_000)
+    if out["o"] == "value" and len(got) == 2:
+        return [tag_code(t) for t in got]
+    return [script_channel(api, ctx, got, CAUGHT % e, wall) for e, _ in STRING_CHANNELS]
 
 
 def construct_batch(case, api):
@@ -70,14 +126,18 @@ def construct_batch(case, api):
     # success = the expression produced a RegExp object (classified on the raw engine value, not by script code)
     ctx.set("__out", lambda *a: (got.append(str(a[0]) if len(a) == 1 else ("ok" if wire.to_wire(a[1]).get("k") == "regex" else "notregexp")), None)[1])
     api.eval_outcome(ctx, CLASSIFY_JS, wall=10.0)
+    if api.eval_outcome(ctx, BULK_FN, wall=10.0)["o"] != "value":
+        raise RuntimeError("could not define the bulk-channel function")
     res = []
     for it in case["items"]:
         p = wire.from_units(it["p"])
         fl = it.get("fl", "")
         wall = float(it.get("wall", 10.0))
+        t0 = time.process_time()
         # channel 1: the package API
-        _emits[0] = 0
+        _emits[0] = _visits[0] = 0
         out = api.run(lambda: RegExp(p, fl), wall=wall, cap=10**9)
+        work = [_visits[0] if _counting[1] else -1, _emits[0] if _counting[0] else -1]
         if out["o"] == "value":
             c1 = "ok"
         elif out["o"] == "host" and out.get("type") == "RegExpError":
@@ -93,8 +153,17 @@ def construct_batch(case, api):
             ch.append("skip")
         ctx.set("P", p)
         ctx.set("F", fl)
-        ch.append(script_channel(api, ctx, got, "try { var r = RegExp(P, F); __out('v', r); } catch (e) { __out(__cls(e)); }", wall))
-        ch.append(script_channel(api, ctx, got, "try { var r = new RegExp(P, F); __out('v', r); } catch (e) { __out(__cls(e)); }", wall))
+        # channels 3, 4: RegExp(P, F), new RegExp(P, F); channels 5, 6: a string pattern given to String.prototype.match / search
+        # (these have no flags argument)
+        strs = fl == ""
+        toplevel = bool(it.get("uncaught") or it.get("name") or fl)
+        four = None if toplevel else bulk_channels(api, ctx, got, wall)
+        if four is not None:
+            ch.extend(four)
+        else:
+            for body in CTOR_CAUGHT:
+                ch.append(script_channel(api, ctx, got, body, wall))
+            ch.extend(string_channels(api, ctx, got, wall) if strs else ["skip", "skip"])
         un = []
         if it.get("uncaught"):
             if lit_ok and not it.get("nolit"):
@@ -103,7 +172,13 @@ def construct_batch(case, api):
                 un.append("skip")
             un.append(script_channel(api, ctx, got, "var r = RegExp(P, F); __out('v', r);", wall))
             un.append(script_channel(api, ctx, got, "var r = new RegExp(P, F); __out('v', r);", wall))
-        res.append({"id": it["id"], "ch": ch, "un": un})
+            for e, _ in STRING_CHANNELS:
+                un.append(script_channel(api, ctx, got, UNCAUGHT % e, wall) if strs else "skip")
+        r = {"id": it["id"], "ch": ch, "un": un}
+        if it.get("name"):
+            r["work"] = work
+            r["cpu_s"] = round(time.process_time() - t0, 2)       # recorded, not judged
+        res.append(r)
     return res
 
 
@@ -193,3 +268,55 @@ def run_driver(case, api):
     api.steps.user = None
     return {"id": case["id"], "out": out_code, "ty": ty, "attempts": cnt.attempts, "steps": cnt.steps, "maxstep": cnt.maxstep,
             "maxstack": cnt.maxstack, "polls": polls[0], "len": len(subject)}
+
+
+FOLD_JS = {
+    "exec": "var m = new RegExp(P, F).exec(S); __out(m === null ? 'null' : 'match');",
+    "test": "__out(new RegExp(P, F).test(S) ? 'match' : 'null');",
+    "match": "var m = S.match(new RegExp(P, F)); __out(m === null ? 'null' : 'match');",
+    "search": "__out(S.search(new RegExp(P, F)) < 0 ? 'null' : 'match');",
+    "replace": "__out(S.replace(new RegExp(P, F), '-') === S ? 'null' : 'match');",        # no subject contains '-'
+    "split": "__out(S.split(new RegExp(P, F)).length > 1 ? 'match' : 'null');",            # no pattern of the grid matches empty
+}
+
+
+def fold_batch(case, api):
+    """case = {id, items:[{id, src:[units], fl:[units], subj:[units], ops:[...]}]} -> per item one outcome code per op:
+    match | null | caught (+ class in ty) | jserror | host (+ type and site in ty) | hang | timelimit | noresult"""
+    from microjs.regex import RegExp
+    ctx = api.new_context(time_limit=None)
+    got = []
+    ctx.set("__out", lambda *a: (got.append(str(a[0])), None)[1])
+    api.eval_outcome(ctx, CLASSIFY_JS, wall=10.0)
+    res = []
+    for it in case["items"]:
+        p, fl, subj = wire.from_units(it["src"]), wire.from_units(it["fl"]), wire.from_units(it["subj"])
+        ctx.set("P", p)
+        ctx.set("F", fl)
+        ctx.set("S", subj)
+        outs, tys = [], []
+        for op in it["ops"]:
+            if op == "api":
+                out = api.run(lambda: RegExp(p, fl).exec(subj), wall=20.0, cap=2_000_000)
+                code, ty = ("null" if out["pv"] is None else "match", "") if out["o"] == "value" else (out["o"], "")
+            else:
+                del got[:]
+                out = api.eval_outcome(ctx, "try { " + FOLD_JS[op] + " } catch (e) { __out('caught:' + __cls(e)); }", wall=20.0, cap=2_000_000)
+                if out["o"] != "value":
+                    code, ty = out["o"], ""
+                elif len(got) != 1:
+                    code, ty = "noresult", str(got)[:80]
+                elif got[0] in ("match", "null"):
+                    code, ty = got[0], ""
+                elif got[0].startswith("caught:"):
+                    code, ty = "caught", got[0][7:]
+                else:
+                    code, ty = "noresult", got[0][:80]
+            if out["o"] == "host":
+                ty = "%s @ %s" % (out.get("type"), out.get("where"))
+            elif out["o"] == "jserror":
+                ty = str(out.get("name"))
+            outs.append(code)
+            tys.append(ty)
+        res.append({"id": it["id"], "out": outs, "ty": tys})
+    return res
